@@ -226,6 +226,12 @@ func (ld *Layerdefs) findLayerstate(layer *Layerinfo) {
 		}
 		mnt := ld.mounts.GetMount(builddir)
 		if mnt == nil {
+			if len(layer.Mounts) > 0 {
+				// mounting the overlay now would hide them
+				layer.addMessage("mounts below the build directory but no overlayfs mount")
+				layer.State = Layerstate_error
+				return
+			}
 			layer.State = Layerstate_mountable
 			return
 		}
